@@ -169,3 +169,95 @@ Section Tokens.
     - destruct (run U sk x a true i) as [| |i1 t1]; try discriminate. inversion H; subst. cbn. lia.
   Qed.
 End Tokens.
+
+(* ---- which rule names can appear at the top level of the tokens of an expression ---- *)
+Fixpoint top_names (e : expr) (a : atomicity) (look : bool) : list string :=
+  match e with
+  | EEoi => if emits RNormal a look then ["EOI"%string] else []
+  | ERule name ty impl body =>
+      if emits ty (match ty with RCompound => Compound | RNonAtomic => NonAtomic | _ => a end) look
+      then [name] else top_names body (inner_atomicity ty impl a) look
+  | ESeq x y | EChoice x y => top_names x a look ++ top_names y a look
+  | EOpt x | ERep x => top_names x a look
+  | _ => []
+  end.
+
+Section TopNames.
+  Variable U : uclass -> N -> bool.
+  Variable sk : input -> option input.
+
+  Definition named_in (names : list string) (t : list ptree) : Prop :=
+    Forall (fun n => In (node_rule n) names) t.
+
+  Lemma named_in_app names a b : named_in names a -> named_in names b -> named_in names (a ++ b).
+  Proof. intros. apply Forall_app. split; assumption. Qed.
+
+  Lemma named_in_mono n1 n2 t : (forall x, In x n1 -> In x n2) -> named_in n1 t -> named_in n2 t.
+  Proof. intros H. apply Forall_impl. intros n. apply H. Qed.
+
+  Lemma rep_loop_names names (f : input -> res) :
+    (forall j j' t, f j = Ok j' t -> named_in names t) ->
+    forall fuel i acc i' t, named_in names acc -> rep_loop f fuel i acc = Ok i' t -> named_in names t.
+  Proof.
+    intros Hf. induction fuel as [|x fuel IH]; intros i acc i' t Ha H; cbn [rep_loop] in H; [discriminate|].
+    destruct (f i) as [| |j tj] eqn:Ef.
+    - inversion H; subst. exact Ha.
+    - discriminate.
+    - destruct (pos i <? pos j); [|discriminate].
+      eapply IH; [|exact H]. apply named_in_app; [exact Ha|eapply Hf; eauto].
+  Qed.
+
+  Theorem run_top_names : forall e a look i i' t,
+    run U sk e a look i = Ok i' t -> named_in (top_names e a look) t.
+  Proof.
+    induction e as [s|lo hi| | | |c|name ty impl body IHb|x IHx y IHy|x IHx y IHy|x IHx|x IHx|ss|x IHx|x IHx];
+      intros a look i i' t H; cbn [run] in H; cbn [top_names].
+    - destruct (strip_prefix s (rest i)); [|discriminate]. inversion H; constructor.
+    - destruct (rest i) as [|c r]; [discriminate|]. destruct ((lo <=? c) && (c <=? hi)); [|discriminate].
+      inversion H; constructor.
+    - destruct (rest i); [discriminate|]. inversion H; constructor.
+    - destruct (pos i =? 0); [|discriminate]. inversion H; constructor.
+    - destruct (rest i); [|discriminate]. inversion H; subst.
+      destruct (emits RNormal a look); repeat constructor.
+    - destruct (rest i) as [|d r]; [discriminate|]. destruct (U c d); [|discriminate]. inversion H; constructor.
+    - destruct (run U sk body (inner_atomicity ty impl a) look i) as [| |j kids] eqn:Eb; try discriminate.
+      destruct (emits ty _ look); inversion H; subst.
+      + constructor; [left; reflexivity|constructor].
+      + eapply IHb; eauto.
+    - destruct (run U sk x a look i) as [| |i1 t1] eqn:Ex; try discriminate.
+      destruct (do_skip sk a i1) as [i1'|]; [|discriminate].
+      destruct (run U sk y a look i1') as [| |i2 t2] eqn:Ey; try discriminate. inversion H; subst.
+      apply named_in_app.
+      + eapply named_in_mono; [|eapply IHx; eauto]. intros; apply in_or_app; left; assumption.
+      + eapply named_in_mono; [|eapply IHy; eauto]. intros; apply in_or_app; right; assumption.
+    - destruct (run U sk x a look i) as [| |i1 t1] eqn:Ex.
+      + eapply named_in_mono; [|eapply IHy; eauto]. intros; apply in_or_app; right; assumption.
+      + discriminate.
+      + inversion H; subst. eapply named_in_mono; [|eapply IHx; eauto]. intros; apply in_or_app; left; assumption.
+    - destruct (run U sk x a look i) as [| |i1 t1] eqn:Ex.
+      + inversion H; constructor.
+      + discriminate.
+      + inversion H; subst. eapply IHx; eauto.
+    - destruct (run U sk x a look i) as [| |i1 t1] eqn:Ex.
+      + inversion H; constructor.
+      + discriminate.
+      + destruct (pos i <? pos i1); [|discriminate].
+        eapply rep_loop_names; [|eapply IHx; eauto|exact H].
+        intros j j' tj Hj. cbn beta in Hj. destruct (do_skip sk a j); [|discriminate]. eapply IHx; eauto.
+    - inversion H; constructor.
+    - destruct (run U sk x a true i) as [| |i1 t1]; try discriminate. inversion H; constructor.
+    - destruct (run U sk x a true i) as [| |i1 t1]; try discriminate. inversion H; constructor.
+  Qed.
+
+  (* a token-producing rule yields exactly one node whose children come from its body *)
+  Lemma rule_node_shape name ty impl body a look i i' t :
+    emits ty (match ty with RCompound => Compound | RNonAtomic => NonAtomic | _ => a end) look = true ->
+    run U sk (ERule name ty impl body) a look i = Ok i' t ->
+    exists kids, t = [Node name (pos i) (pos i') kids] /\
+                 named_in (top_names body (inner_atomicity ty impl a) look) kids.
+  Proof.
+    intros He H. cbn [run] in H.
+    destruct (run U sk body (inner_atomicity ty impl a) look i) as [| |j kids] eqn:Eb; try discriminate.
+    rewrite He in H. inversion H; subst. exists kids. split; [reflexivity|]. eapply run_top_names; eauto.
+  Qed.
+End TopNames.
